@@ -182,7 +182,7 @@ class StepChecker:
                     break
             if hit:
                 self.stats["rule_explained"][hit] = self.stats["rule_explained"].get(hit, 0) + 1
-            elif op in AC_OPS:
+            elif op in AC_OPS or (op not in COMPLETE_OPS and not E.is_bool(n)):
                 pending_ac.append((n, rt, cands))
             elif op in COMPLETE_OPS:
                 bad.append(("corr:unexplained-rewrite", "%s built %s; model candidates: %s" % (
@@ -190,19 +190,31 @@ class StepChecker:
             else:
                 key = op + ("+cand" if cands else "")
                 self.stats["unmodelled_rewrite"][key] = self.stats["unmodelled_rewrite"].get(key, 0) + 1
-        # second phase: rewrites of associative-commutative nodes are checked by the proven certificate check `acEquiv`
+        # second phase: rewrites not explained by a schema go to the proven certificate checks: `acEquiv`/`bcEquiv` (associative-
+        # commutative nodes) and `bitsEquiv` (rewrites that only move bits around)
         if pending_ac:
-            outs2 = ctx.driver(["ac %s | %s" % (E.sexpr(n), E.sexpr(rt)) for n, rt, _ in pending_ac])
-            for (n, rt, cands), o in zip(pending_ac, outs2):
-                op = n[0]
-                if o == "1":
-                    key = "AC." + op
-                    self.stats["rule_explained"][key] = self.stats["rule_explained"].get(key, 0) + 1
+            reqs = []
+            for n, rt, _ in pending_ac:
+                if n[0] in AC_OPS:
+                    reqs.append("ac %s | %s" % (E.sexpr(n), E.sexpr(rt)))
+                if not E.is_bool(n):
+                    reqs.append("bits %s | %s" % (E.sexpr(n), E.sexpr(rt)))
+            outs2 = iter(ctx.driver(reqs))
+            for (n, rt, cands) in pending_ac:
+                op = n[0].split(":")[0]
+                how = None
+                if n[0] in AC_OPS and next(outs2) == "1":
+                    how = "AC." + op
+                if not E.is_bool(n) and next(outs2) == "1" and how is None:
+                    how = "BITS." + op
+                if how:
+                    self.stats["rule_explained"][how] = self.stats["rule_explained"].get(how, 0) + 1
                 else:
                     key = op + ("+cand" if cands else "")
                     self.stats["unmodelled_rewrite"][key] = self.stats["unmodelled_rewrite"].get(key, 0) + 1
-                    if len(self.stats.setdefault("unmodelled_examples", [])) < 12:
-                        self.stats["unmodelled_examples"].append("%s => %s" % (E.sexpr(n)[:160], E.sexpr(rt)[:160]))
+                    ex = self.stats.setdefault("unmodelled_examples", {})
+                    if len(ex.setdefault(op, [])) < 4:
+                        ex[op].append("%s => %s" % (E.sexpr(n)[:200], E.sexpr(rt)[:200]))
         self.steps = []
         return bad
 
